@@ -264,8 +264,9 @@ def handle (st : St) (seq : String) (f : List String) : St × List String :=
         else (st', [])
     | _, _ => (st, [s!"BAD\t{seq}\tcannot parse msg/env"])
   | kind :: rest =>
-    if kind ≠ "vault.state" ∧ kind ≠ "vault.state.settle" then (st, [s!"BAD\t{seq}\tunknown vault line"]) else
-    let isSettle := kind = "vault.state.settle"
+    if kind ≠ "vault.state" ∧ kind ≠ "vault.state.settle" ∧ kind ≠ "vault.state.bid" then (st, [s!"BAD\t{seq}\tunknown vault line"]) else
+    -- `.settle`: the state after an auction closed; `.bid`: after a partial auction fill (only bidder / auction-module coins move)
+    let isSettle := kind = "vault.state.settle" || kind = "vault.state.bid"
     match parseProj rest with
     | none => (st, [s!"BAD\t{seq}\tcannot parse state"])
     | some p =>
